@@ -3,9 +3,11 @@
 
 pub mod engine;
 pub mod gen;
+pub mod handles;
 pub mod props;
 pub mod refmodel;
 pub mod scratch;
+pub mod targets;
 pub mod zones;
 
 use engine::{Opts, Tier};
@@ -81,6 +83,44 @@ fn main() {
             }
         }
         Some("scratch") => scratch::run(),
+        Some("fuzz-replay") => {
+            // jv fuzz-replay <target> <file> <property>: re-execute a saved libFuzzer input through
+            // the same oracle in the plain harness (debug assertions on)
+            let target = pos.get(1).unwrap_or_else(|| usage());
+            let file = pos.get(2).unwrap_or_else(|| usage());
+            let prop = pos.get(3).map(|s| s.as_str()).unwrap_or("C17");
+            let data = std::fs::read(file).unwrap_or_else(|e| {
+                eprintln!("cannot read {file}: {e}");
+                std::process::exit(2)
+            });
+            let f = if target == "tz_handles" {
+                props::c20::fuzz_entry as fn(&[u8]) -> Result<(), String>
+            } else {
+                match targets::TARGETS.iter().find(|t| t.0 == target) {
+                    Some(t) => t.1,
+                    None => {
+                        eprintln!("unknown fuzz target {target}");
+                        std::process::exit(2)
+                    }
+                }
+            };
+            let r = engine::guard("fuzz-replay", || f(&data));
+            match r {
+                Ok(Ok(())) => {
+                    println!("REPLAY-PASS property={prop} target={target}");
+                }
+                Ok(Err(e)) => {
+                    println!("VIOLATION property={prop} replay={file}");
+                    println!("  {e}");
+                    std::process::exit(1);
+                }
+                Err(fl) => {
+                    println!("VIOLATION property={prop} replay={file}");
+                    println!("  {}", fl.msg);
+                    std::process::exit(1);
+                }
+            }
+        }
         Some("selftest") => {
             println!("refcal ok");
         }
@@ -104,3 +144,72 @@ fn main() {
         _ => usage(),
     }
 }
+
+// --- counting allocator (per-thread current/peak heap bytes) -----------------
+// Used by C17 (heap use proportional to input size) and C20 (allocation model).
+pub mod heap {
+    use std::alloc::{GlobalAlloc, Layout, System};
+    use std::cell::Cell;
+
+    thread_local! {
+        static CUR: Cell<isize> = const { Cell::new(0) };
+        static PEAK: Cell<isize> = const { Cell::new(0) };
+        static BLOCKS: Cell<isize> = const { Cell::new(0) };
+    }
+
+    pub struct Counting;
+
+    unsafe impl GlobalAlloc for Counting {
+        unsafe fn alloc(&self, l: Layout) -> *mut u8 {
+            let p = System.alloc(l);
+            if !p.is_null() {
+                let _ = CUR.try_with(|c| {
+                    c.set(c.get() + l.size() as isize);
+                    let _ = PEAK.try_with(|p| {
+                        if c.get() > p.get() {
+                            p.set(c.get())
+                        }
+                    });
+                });
+                let _ = BLOCKS.try_with(|b| b.set(b.get() + 1));
+            }
+            p
+        }
+        unsafe fn dealloc(&self, p: *mut u8, l: Layout) {
+            System.dealloc(p, l);
+            let _ = CUR.try_with(|c| c.set(c.get() - l.size() as isize));
+            let _ = BLOCKS.try_with(|b| b.set(b.get() - 1));
+        }
+        unsafe fn realloc(&self, p: *mut u8, l: Layout, new: usize) -> *mut u8 {
+            let q = System.realloc(p, l, new);
+            if !q.is_null() {
+                let _ = CUR.try_with(|c| {
+                    c.set(c.get() + new as isize - l.size() as isize);
+                    let _ = PEAK.try_with(|p| {
+                        if c.get() > p.get() {
+                            p.set(c.get())
+                        }
+                    });
+                });
+            }
+            q
+        }
+    }
+
+    /// (current bytes, live blocks) allocated by this thread so far (net)
+    pub fn snapshot() -> (isize, isize) {
+        (CUR.with(|c| c.get()), BLOCKS.with(|b| b.get()))
+    }
+    /// Reset the peak to the current level and return the current level.
+    pub fn reset_peak() -> isize {
+        let c = CUR.with(|c| c.get());
+        PEAK.with(|p| p.set(c));
+        c
+    }
+    pub fn peak() -> isize {
+        PEAK.with(|p| p.get())
+    }
+}
+
+#[global_allocator]
+static GLOBAL: heap::Counting = heap::Counting;
